@@ -21,6 +21,19 @@ type Stage struct {
 	Fail int `json:"fail"`
 	// Panic: the failing closure does not throw, it calls a host function that panics
 	Panic bool `json:"panic,omitempty"`
+	// LazyIndex: the closure reads its element through an index into a lazy list it builds
+	// itself, numbers(3).number((i, k) -> k + e)[0] (the value is e; number evaluates its
+	// closure on the stack it is handed): every call evaluates a list
+	// of its own
+	LazyIndex bool `json:"lazy_index,omitempty"`
+}
+
+// el is the element as the closure of this stage reads it.
+func (st Stage) el(x *Expr) *Expr {
+	if st.LazyIndex {
+		return Index(MCall(SCall("numbers", Int(3)), "number", lam([]string{"i", "k"}, Bin("+", Var("k"), x))), Int(0))
+	}
+	return x
 }
 
 // Spec describes a pipeline.
@@ -66,7 +79,7 @@ func mod(x *Expr) *Expr { return Bin("%", x, Int(100003)) }
 
 // apply builds the expression of one stage on the receiver.
 func (st Stage) apply(recv *Expr) *Expr {
-	w := func(x *Expr) *Expr { return wrap(st.Profile, x) }
+	w := func(x *Expr) *Expr { return wrap(st.Profile, st.el(x)) }
 	switch st.Name {
 	case "map":
 		return MCall(recv, "map", lam([]string{"e"}, guard(st, e, mod(Bin("+", Bin("*", w(e), Int(3)), Int(1))))))
@@ -247,6 +260,7 @@ func GenSpec(t *rapid.T, cfg PipeConfig, depth int) *Spec {
 			st.Profile = "probe"
 		}
 		st.P = rapid.IntRange(0, 40).Draw(t, "p")
+		st.LazyIndex = rapid.IntRange(0, 5).Draw(t, "lazyIndex") == 0
 		if st.Name == "top" && rapid.Bool().Draw(t, "bigTop") {
 			st.P = rapid.IntRange(0, cfg.MaxN).Draw(t, "topN")
 		}
@@ -334,6 +348,24 @@ func (sp *Spec) ClosureStages() int {
 		}
 	}
 	return n
+}
+
+// HasLazyIndex reports whether a closure stage reads its element through an index into
+// a lazy list of its own.
+func (sp *Spec) HasLazyIndex() bool {
+	for _, st := range sp.Stages {
+		switch st.Name {
+		case "top", "skip", "plus":
+		default:
+			if st.LazyIndex {
+				return true
+			}
+		}
+		if st.Other != nil && st.Other.HasLazyIndex() {
+			return true
+		}
+	}
+	return false
 }
 
 // Has reports whether a stage of the given name occurs (also in sub pipelines).
